@@ -166,6 +166,12 @@ def start_points(draw, recipe, outside=False):
     if draw(st.integers(0, 4)) > 0:
         return None
     u = [draw(unit01) for _ in recipe["lower"]]
+    near = (recipe.get("obj") or {}).get("p")
+    near = near[0] if (near and isinstance(near[0], list)) else near
+    if near is not None and len(near) == len(u) and draw(st.booleans()):
+        # a good initial guess: (next to) a minimiser of the generated objective, so that a start point that is
+        # honoured would be the best trial for a while
+        u = [min(1.0, max(0.0, float(v))) for v in near]
     if outside and draw(st.booleans()):
         k = draw(st.integers(0, len(u) - 1))
         u[k] = draw(st.sampled_from([-0.4, 1.6, -3.0, 1.0000001, 2.0]))
